@@ -96,12 +96,28 @@ def lookup(kind: int, e0: int, e1: int, e2: int, n: int, spec: int, ssc: bool, r
     pre: e0 != e1 and e1 != e2 and e0 != e2
     post: _
     """
+    return _lookup(KINDS[kind], [REPS[e0], REPS[e1], REPS[e2]][:n], spec, ssc, rel)
+
+
+# names that hit the patterns of two asset kinds at once
+MULTI_REPS = ["banner bg.png", "cdtitle bn.png", "Jacket-CD.png", "readme.txt", "AlbumArt bg.JPG"]
+
+
+def lookup_multi(kind: int, e0: int, e1: int, n: int, spec: int, ssc: bool) -> bool:
+    """
+    pre: 0 <= kind < len(KINDS) and 0 <= e0 < len(MULTI_REPS) and 0 <= e1 < len(MULTI_REPS) and 1 <= n <= 2 and 0 <= spec <= 3
+    pre: e0 != e1
+    post: _
+    """
+    # every kind is asked independently: an entry whose name matches the patterns of two kinds is a valid answer for both
+    return _lookup(KINDS[kind], [MULTI_REPS[e0], MULTI_REPS[e1]][:n], spec, ssc, False)
+
+
+def _lookup(K, names, spec, ssc, rel):
     global LAST
     import os
-    K = KINDS[kind]
     # the directory as an absolute path or as a bare relative name (several representatives start with that name)
     d = "song" if rel else "/songs/pack/song"
-    names = [REPS[e0], REPS[e1], REPS[e2]][:n]
     listing = {d: list(names), d + "/sub": ["Inner.PNG", "clip.ogg"]}
     dirs = {"/songs", "/songs/pack", d}
     files = {}
